@@ -12,6 +12,7 @@ import (
 	"net/http"
 	"net/http/httptest"
 	"path/filepath"
+	"regexp"
 	"time"
 
 	"crawshaw.io/sqlite"
@@ -141,7 +142,12 @@ func (w *World) startLoad(in *Instance) {
 	}()
 }
 
+var longToken = regexp.MustCompile(`[0-9A-Za-z+/=]{24,}`)
+
+// clip shortens a message for the event log and removes long opaque tokens
+// (object bytes quoted in error messages may be randomised signature material).
 func clip(s string) string {
+	s = longToken.ReplaceAllString(s, "<bytes>")
 	if len(s) > 160 {
 		return s[:160] + "..."
 	}
